@@ -304,6 +304,15 @@ def run(ctx):
     if core.SCRATCH_UID and rc == 0:
         ctx.problem('oracle', 'a configuration file named with --config exists but cannot be read, and the command succeeds as if it were not there', None,
                     {'stdout': out.decode('utf-8', 'replace')[:300]}, signature='unreadable-config-ignored')
+    # a configuration file reached through a symbolic link (dotfiles kept in a repository) is a configuration file
+    linkf = {b'food.yaml': b'', b'iso.yaml': b'2021-01-24:\n  a: 1\n', b'real.cfg': b'[Global]\nDateFormat=2006-01-02\nLogFileName=iso.yaml\n'}
+    for how, argv, kw in (('--config', ['--today', '2021-01-28', '-c', 'link.cfg', 'csv', 'log'], {'links': {'link.cfg': 'real.cfg'}}),
+                          ('HR_CONFIG', ['--today', '2021-01-28', 'csv', 'log'], {'links': {'link.cfg': 'real.cfg'}, 'env_extra': {'HR_CONFIG': 'link.cfg'}})):
+        rc, out, err = core.run_real_binary(binary, argv, linkf, **kw)
+        ctx.evaluations += 1
+        if rc != 0 or out != b'2021-01-24,a,1.000\n':
+            ctx.problem('oracle', 'a configuration file named with %s that is a symbolic link to a regular file is not used (exit status %d)' % (how, rc), None,
+                        {'stdout': out.decode('utf-8', 'replace')[:300], 'stderr': err.decode('utf-8', 'replace')[:300]}, signature='config-symlink')
     rc, out, err = core.run_real_binary(binary, ['--today', '2021/01/28', 'csv', 'log'], logf, drop_env=('HOME', 'USER'))
     ctx.evaluations += 1
     if rc not in (0, 1) or b'panic' in err or b'fatal error' in err:
